@@ -51,6 +51,7 @@ func run(r *vk.Runner) {
 	gj5s.Silence()
 	if r.Quick() {
 		cases = append(cases, gbridge.Cases(gbridge.Programs())...)
+		cases = append(cases, gpb.DeepQuickCases()...)
 	} else {
 		cases = append(cases, gbridge.Cases(gbridge.ThoroughPrograms())...)
 		cases = append(cases, gpb.DeepCases()...)
